@@ -388,8 +388,28 @@ type e2LogHandler struct {
 	in   *e2Inst
 }
 
-func (h *e2LogHandler) Enabled(_ context.Context, l slog.Level) bool { return l >= slog.LevelWarn }
+func (h *e2LogHandler) Enabled(_ context.Context, l slog.Level) bool { return l >= slog.LevelInfo }
 func (h *e2LogHandler) Handle(_ context.Context, rec slog.Record) error {
+	if rec.Level < slog.LevelWarn {
+		// One informational line is an observation: on shutdown the main loop reports the
+		// height, round and step it was waiting in (C12 compares that with the timers).
+		if rec.Message == "State machine kernel quitting due to context cancellation in main loop (live events)" {
+			ev := e2Ev{K: e2kQuitStep, Inst: h.inst}
+			rec.Attrs(func(a slog.Attr) bool {
+				switch a.Key {
+				case "height":
+					ev.H = a.Value.Uint64()
+				case "round":
+					ev.R = uint32(a.Value.Uint64())
+				case "step":
+					ev.Sub = a.Value.String()
+				}
+				return true
+			})
+			h.w.log.add(ev)
+		}
+		return nil
+	}
 	msg := rec.Message
 	rec.Attrs(func(a slog.Attr) bool {
 		if a.Key == "err" || a.Key == "cause" {
@@ -1764,9 +1784,10 @@ func (w *e2World) step() bool {
 	if rd.quorumAccepted && in.hc != nil {
 		cs = append(cs, choice{"hcommitted", 10})
 	} else if in.hc != nil {
-		// the mirror may have committed the height before the machine saw the deciding view (rare)
-		if w.rng.IntN(25) == 0 {
-			cs = append(cs, choice{"hcommitted", 1})
+		// the mirror may have committed the height before the machine saw the deciding view
+		// (a lagging state machine); uncommon, but every case should meet it a few times
+		if w.rng.IntN(6) == 0 {
+			cs = append(cs, choice{"hcommitted", 3})
 		}
 	}
 	jw := 2
